@@ -53,6 +53,19 @@ def rule_wfs(ctx, rep):
             oks = any(a[0] == "eq" and a[1][0] == "asm" and a[1][2] == c.inst.id for a in lv) or any(a[0] == "eq" and a[2][0] == "asm" and a[2][2] == c.inst.id for a in lv)
             rep.check(oks, "C11.wfs", tag + ".state-after-success", "CDS_WFS_STATE_LAST is reported only for the pop whose cmpxchg succeeded",
                       "the `last element` state flag is set before knowing that this attempt's cmpxchg succeeds: after a retry the flag describes a different element", [s_.where()])
+        # pop writes nothing but the head word and the caller's state: the popped node stays as the other (RCU / mutex-excluded)
+        # poppers and a concurrent pop_all traversal last saw it - in particular its next pointer, which a popper that loaded the
+        # same head still has to read for its own cmpxchg
+        other = [e for e in pat.accesses(f, None, ("store", "rmw", "cmpxchg", "xchg")) if e.ap is not None and e.ap.get("base") not in (["a", 0], ["a", 1])
+                 and not (e.ap.get("base") or ["?"])[0] == "alloca"]
+        mod = ctx.mod(lib, "perfn")
+        for c_ in f.all_insts():
+            g = mod.fn(c_.callee) if c_.op == "call" and c_.callee else None
+            if g is not None and g.blocks:
+                other += [e for e in pat.accesses(g, None, ("store", "rmw", "cmpxchg", "xchg")) if e.ap is not None and (e.ap.get("base") or ["?"])[0] == "a"]
+        rep.check(not other, "C11.wfs", tag + ".writes-only-head", "pop writes only the head word (cmpxchg) and *state", "pop writes into the node it removes (%s): a concurrent popper that loaded the same head, "
+                  "or a traversal of a stack grabbed by pop_all, follows the overwritten next pointer (elements behind it are lost / reported as end)" % (ir.ap_str(f, other[0].ap) if other else ""),
+                  [e.inst.where() for e in other[:2]])
         syn = _srccalls(f, "___cds_wfs_node_sync_next")
         for s in syn:
             rep.check(ir.expr(f, s.args[1]) == ("arg", 2), "C11.wfs", tag + ".blocking-flag", "blocking flag handed unchanged to the wait", "wait ignores the caller's blocking flag", [s.where()])
